@@ -44,6 +44,13 @@ def fault_cases():
         cases.append(("one-arg-model/" + pos, *place(["-m", "Root"]), True))
         cases.append(("four-arg-model/" + pos, *place(["-m", "Root", "-", "good1.json", "extra"]), True))
         cases.append(("empty-label-key/" + pos, *place(["-m", "Root", "e.json"], {"e.json": [{"***": 1}]}), True))
+    for fmt, good, ext in (("ini", "[s]\na = 1\n", "ini"), ("yaml", "- a: 1\n  b: x\n", "yaml"), ("json", '[{"a": 1}]', "json")):
+        gf = {"good." + ext: good, "adir." + ext + "/keep.txt": "x"}
+        for bad, label in (("nope." + ext, "missing-file"), ("adir." + ext, "directory-as-file")):
+            for order in ("first", "last", "alone"):
+                a_good, a_bad = ["-m", "Root", "good." + ext], ["-m", "Root", bad]
+                argv = {"first": a_bad + a_good, "last": a_good + a_bad, "alone": a_bad}[order] + ["-i", fmt]
+                cases.append((f"{label}-{fmt}/{order}", gf, argv, True))
     y = {"good1.yaml": "- a: 1\n  b: x\n", "bad.yaml": "- a: [1\n", "intkey.yaml": "- 1: x\n  2: y\n"}
     cases.append(("malformed-yaml", y, ["-m", "Root", "good1.yaml", "-m", "Root", "bad.yaml", "-i", "yaml"], True))
     cases.append(("non-string-keys", y, ["-m", "Root", "good1.yaml", "-m", "Root", "intkey.yaml", "-i", "yaml"], True))
